@@ -162,8 +162,11 @@ def generate(tier, rng):
     for dims in (["a", "b"], ["b", "a"]):
         arr = dict(dims=dims, values=[1, 2, 3, 4], layout="C")
         for key in (dict(form="bare", item="a0"), dict(form="tuple", items=["a1", "a0"]), dict(form="bare", item="a1"),
-                    dict(form="dict", entries=[["L", "b", ["single", "a0"]]])):
+                    dict(form="dict", entries=[["L", "b", ["single", "a0"]]]),
+                    # the ambiguous item after an item of one of its dimensions, and after an item of the other one
+                    dict(form="tuple", items=["b1", "a0"]), dict(form="tuple", items=["a0", "a1"]), dict(form="tuple", items=["a1", "b1", "a0"])):
             cases.append(dict(stream="malformed", uni=amb, arr=arr, steps=[dict(op="get", key=key)]))
+            cases.append(dict(stream="malformed", uni=amb, arr=arr, steps=[dict(op="set", key=key, rhs=dict(kind="num", c=5)), dict(op="get", key=dict(form="ellipsis"))]))
     return cases
 
 
